@@ -16,6 +16,11 @@
 //	VERIF_REPS    executions per program
 //	VERIF_TRACE   output NDJSON: the distinct histories {hid,prog,obj,min,max,cnt,ops:[...]}
 //	VERIF_PROGRESS  pid of the program being executed (crash attribution)
+//	VERIF_NOSTAMP   "1": take no stamps and record no histories.  Used with the -race
+//	              build: the stamp counter is an atomic, and atomics order the goroutines
+//	              for the race detector whenever the operations do not really overlap;
+//	              without it every unsynchronised access pair of two goroutines is reported
+//	              independently of timing.
 //
 // Every operation takes a stamp from one atomic counter immediately before
 // the call and immediately after the return, so "a.rs < b.cs" implies that a
@@ -77,7 +82,9 @@ func (o idseqObj) do(Op) (bool, int) {
 	return ovf, int(id)
 }
 
-type storeObj struct{ s *transactions.TransactionStore }
+type storeObj struct {
+	s *transactions.TransactionStore
+}
 
 func (o storeObj) do(op Op) (bool, int) {
 	switch op.Op {
@@ -273,7 +280,7 @@ type Hist struct {
 
 // runOnce executes the program once on a fresh object; mode selects how the
 // goroutines are released (0: spin barrier, 1: no barrier, 2: barrier + yields).
-func runOnce(p *Prog, mode int, rng *rand.Rand) ([]HOp, bool) {
+func runOnce(p *Prog, mode int, rng *rand.Rand, stamps bool) ([]HOp, bool) {
 	obj := newObject(p.Obj, p.Min, p.Max)
 	var clock atomic.Int64
 	var gate atomic.Int32
@@ -316,6 +323,10 @@ func runOnce(p *Prog, mode int, rng *rand.Rand) ([]HOp, bool) {
 					runtime.Gosched()
 				}
 				op := Op{Op: mine[j].Op, K: mine[j].K, V: mine[j].V}
+				if !stamps {
+					mine[j].Found, mine[j].RV = obj.do(op)
+					continue
+				}
 				mine[j].CS = clock.Add(1)
 				found, rv := obj.do(op)
 				mine[j].RS = clock.Add(1)
@@ -357,6 +368,7 @@ func TestDrive(t *testing.T) {
 		t.Fatalf("HARNESS: bad VERIF_REPS")
 	}
 	seed, _ := strconv.ParseInt(os.Getenv("VERIF_SEED"), 10, 64)
+	stamps := os.Getenv("VERIF_NOSTAMP") != "1"
 	prog := os.Getenv("VERIF_PROGRESS")
 	sf, err := os.Open(os.Getenv("VERIF_SCHED"))
 	if err != nil {
@@ -386,12 +398,15 @@ func TestDrive(t *testing.T) {
 		seen := map[string]*Hist{}
 		var order []string
 		for r := 0; r < reps; r++ {
-			ops, ok := runOnce(&p, r%3, rng)
+			ops, ok := runOnce(&p, r%3, rng, stamps)
 			runs++
 			if !ok {
 				w.Flush()
 				fmt.Printf("HANG pid=%d\n", p.Pid)
 				os.Exit(3)
+			}
+			if !stamps {
+				continue
 			}
 			k := key(ops)
 			if h, dup := seen[k]; dup {
